@@ -405,7 +405,7 @@ func (w *worker) retire() {
 }
 
 func (g *Engine) runPath(w *worker, in Instance, script []int64, solverKind string, timeoutMs int) (res PathResult) {
-	if w.ctx == nil || w.paths > 300 || w.ctx.next > 3_000_000 {
+	if w.ctx == nil || w.paths > 300 || w.ctx.next > 800_000 {
 		w.retire()
 		w.shared = &sharedCaches{unsat: map[int][][]int{}}
 		w.ctx = NewCtx()
